@@ -31,7 +31,7 @@ func init() {
 	register(&PropertyDef{
 		ID:          "C17",
 		Title:       "Rendezvous points are deterministic, agreed between peers, and rotate on time",
-		Explanation: "Decides, from the type-checked SSA of /repo and without executing it: (D1) by a backward, order-aware dependency query, that the digest returned by GenerateRendezvousPointForPeriod depends on each of topic, seed and date and on no clock, randomness or mutable package state, that on the way from Time.Unix* to the MAC input the period start is never converted to an integer type narrower than 64 bits (int/uint count as narrow: 32-bit platforms) and that a constant-bounds PutUint64 region is entirely inside the bytes written to the hash (a hand-written shift/mask encoder is not modelled), and that RoundTimePeriod/NextTimePeriod are pure functions of (date, interval); (D2) by abstract evaluation over the ordering of deadline and clock (representatives: deadline 2 s / 1 h before and after now), that Point.IsExpired is true exactly for a passed deadline and Point.TTL has the sign of deadline-now; (D3) by abstract evaluation over a period lattice (instant -> period index relative to a base instant, aligned to the period start or not), with IsExpired/TTL replaced by the contract D2 checks: NextTimePeriod is RoundTimePeriod plus one interval for either sign of the interval; NewRendezvousPointForPeriod digests (topic, seed, start of the period containing its time argument), sets the deadline to the end of that period and stores topic, seed and owner unchanged; NextPoint of an expired point builds the point of the period containing the clock with the same topic and seed; every exported lookup returns on a hit the cached point while it is live and, once it is expired, a newly built point of the current period that has been passed to the function storing points in both caches, and refuses a miss with an error; structurally: points are stored in both caches on the same path, under their own topic and their own encoded rotation value; the raw-rotation lookup encodes exactly like Point.RotationTopic; cache entries are deleted only in timer callbacks (never synchronously on the rotation path, never with a constant delay <= 0), only from the rotation cache, only under the key of the replaced point; every cache access holds the cache mutex in the required mode, including in callers and the timer callback; (D4) Marshal resolves the point for the message address, fails when the lookup fails, and sends that point's raw rotation value; Unmarshal looks up the RawRotation of the message decoded from the payload, fails on every path when the lookup fails, and opens the sealed box under the resolved point's topic; the store-opening path registers rotation and shared key under the same topic; (D5) every site that rebuilds a point for time.Now() behind a test of a point's deadline (swiper announce/watch loops, NextPoint) is reached on the deadline-passed side of the test; (D6) at every module call site of a lookup by rotation value (the lookups that read the rotation cache), no branch whose condition is computed from both the value looked up and the returned point's rotation value (directly or through a module helper) has a side that only fails: the lookup answers a previous-period value with the current point, so such a rejection would cancel the grace period for that consumer. (D7) in every loop outside the rendezvous package that renews a point (constructor, NextPoint or a lookup called on a CFG cycle), each topic handed to the discovery service in that loop (string argument of an exported tinder.Service method, directly, through a module helper parameter, or through a struct field that another function passes on) derives from a renewal call of that loop, following locals and captured variables through all their stores; a topic fixed outside the loop is reported (flow-insensitive: a topic computed in the loop before the renewal of the same iteration is not distinguished). Not decided: the arithmetic inside RoundTimePeriod (floor to a multiple of the interval; covered by the project's unit test), HMAC/SHA-256 strength, agreement across real clocks and clock skew, the length of the grace period (only that it is not zero by construction), the cadence of the swiper loops, behaviour for intervals below one second.",
+		Explanation: "Decides, from the type-checked SSA of /repo and without executing it: (D1) by a backward, order-aware dependency query, that the digest returned by GenerateRendezvousPointForPeriod depends on each of topic, seed and date and on no clock, randomness or mutable package state, that on the way from Time.Unix* to the MAC input the period start is never converted to an integer type narrower than 64 bits (int/uint count as narrow: 32-bit platforms) and that a constant-bounds PutUint64 region is entirely inside the bytes written to the hash (a hand-written shift/mask encoder is not modelled), and that RoundTimePeriod/NextTimePeriod are pure functions of (date, interval); (D2) by abstract evaluation over the ordering of deadline and clock (representatives: deadline 2 s / 1 h before and after now), that Point.IsExpired is true exactly for a passed deadline and Point.TTL has the sign of deadline-now; (D3) by abstract evaluation over a period lattice (instant -> period index relative to a base instant, aligned to the period start or not), with IsExpired/TTL replaced by the contract D2 checks: NextTimePeriod is RoundTimePeriod plus one interval for either sign of the interval; NewRendezvousPointForPeriod digests (topic, seed, start of the period containing its time argument), sets the deadline to the end of that period and stores topic, seed and owner unchanged; NextPoint of an expired point builds the point of the period containing the clock with the same topic and seed; every exported lookup returns on a hit the cached point while it is live and, once it is expired, a newly built point of the current period that has been passed to the function storing points in both caches, and refuses a miss with an error; structurally: points are stored in both caches on the same path, under their own topic and their own encoded rotation value; the raw-rotation lookup encodes exactly like Point.RotationTopic; cache entries are deleted only in timer callbacks (never synchronously on the rotation path, never with a constant delay <= 0), only from the rotation cache, only under the key of the replaced point; every cache access holds the cache mutex in the required mode, including in callers and the timer callback; (D4) Marshal resolves the point for the message address, fails when the lookup fails, and sends that point's raw rotation value; Unmarshal (in its own body or in a module function it calls, depth <= 2, with the payload parameter and the error traced through the calls) looks up the RawRotation of the message decoded from the payload, fails on every path when the lookup fails, and opens the sealed box under the resolved point's topic; the store-opening path registers rotation and shared key under the same topic; (D5) every site that rebuilds a point for time.Now() behind a test of a point's deadline (swiper announce/watch loops, NextPoint) is reached on the deadline-passed side of the test; (D6) at every module call site of a lookup by rotation value (the lookups that read the rotation cache), no branch whose condition is computed from both the value looked up and the returned point's rotation value (directly or through a module helper) has a side that only fails: the lookup answers a previous-period value with the current point, so such a rejection would cancel the grace period for that consumer. (D7) in every loop outside the rendezvous package that renews a point (constructor, NextPoint or a lookup called on a CFG cycle), each topic handed to the discovery service in that loop (string argument of an exported tinder.Service method, directly, through a module helper parameter, or through a struct field that another function passes on) derives from a renewal call of that loop, following locals and captured variables through all their stores; a topic fixed outside the loop is reported (flow-insensitive: a topic computed in the loop before the renewal of the same iteration is not distinguished). Not decided: the arithmetic inside RoundTimePeriod (floor to a multiple of the interval; covered by the project's unit test), HMAC/SHA-256 strength, agreement across real clocks and clock skew, the length of the grace period (only that it is not zero by construction), the cadence of the swiper loops, behaviour for intervals below one second.",
 		Trusted:     []string{"golang.org/x/tools go/packages+go/ssa (v0.29.0)", "semantics of package time (Now/Until/Since/Sub/After/Before/Add/Unix*), crypto/hmac, encoding/binary, encoding/base64 as documented", "the checker's abstract evaluator (absint.go)"},
 		Assumptions: []string{"dependencies behave as documented; only module code is analysed", "rotation intervals are whole seconds >= 1 s (the quantifier of the property)", "D3 assumes the contract of IsExpired/TTL that D2 checks"},
 		Floors:      map[string]int{"D1": 4, "D2": 2, "D3": 16, "D4": 7, "D5": 3, "D6": 2, "D7": 3},
@@ -1620,6 +1620,9 @@ type c17Access struct {
 	Key   ssa.Value
 	Val   ssa.Value // MapUpdate value
 	Kind  string    // lookup | update | delete | range | len | other
+	// Origin: the function that loaded the map from the RotationInterval field (the access
+	// itself may sit in a callee that received the map as an argument)
+	Origin *ssa.Function
 }
 
 type c17CacheInfo struct {
@@ -1677,6 +1680,61 @@ func c17Caches(c *Ctx, a *c17Anchors) *c17CacheInfo {
 	if nMu != 1 {
 		ci.muF = -1
 	}
+	// uses: the accesses made through map value v (field f, loaded in origin); a map handed to a
+	// module function is followed into that function's parameter
+	var uses func(v ssa.Value, f int, origin *ssa.Function, depth int)
+	visited := map[[3]any]bool{}
+	uses = func(v ssa.Value, f int, origin *ssa.Function, depth int) {
+		k := [3]any{v, f, origin}
+		if v.Referrers() == nil || visited[k] || depth > 3 {
+			return
+		}
+		visited[k] = true
+		for _, r := range *v.Referrers() {
+			fn := r.Parent()
+			ac := c17Access{Instr: r, Field: f, Kind: "other", Write: true, Origin: origin}
+			switch u := r.(type) {
+			case *ssa.Lookup:
+				ac.Kind, ac.Write, ac.Key = "lookup", false, u.Index
+			case *ssa.MapUpdate:
+				ac.Kind, ac.Key, ac.Val = "update", u.Key, u.Value
+			case *ssa.Range:
+				ac.Kind, ac.Write = "range", false
+			case *ssa.DebugRef:
+				continue
+			case *ssa.Phi:
+				uses(u, f, origin, depth)
+				continue
+			case ssa.CallInstruction:
+				switch calleeKey(u.Common()) {
+				case "builtin.delete":
+					ac.Kind = "delete"
+					if len(u.Common().Args) == 2 {
+						ac.Key = u.Common().Args[1]
+					}
+				case "builtin.len":
+					ac.Kind, ac.Write = "len", false
+				case "builtin.clear":
+					ac.Kind = "delete"
+				default:
+					callee := staticCallee(u.Common())
+					if _, isCall := r.(*ssa.Call); isCall && callee != nil && callee.Blocks != nil && inModule(callee) {
+						followed := false
+						for i, arg := range u.Common().Args {
+							if arg == v && i < len(callee.Params) {
+								uses(callee.Params[i], f, origin, depth+1)
+								followed = true
+							}
+						}
+						if followed {
+							continue
+						}
+					}
+				}
+			}
+			ci.acc[fn] = append(ci.acc[fn], ac)
+		}
+	}
 	for _, fn := range c.W.ModFuncs {
 		if p := fnPkg(fn); p == nil || p.Path() != c17PkgRdv {
 			continue
@@ -1688,37 +1746,14 @@ func c17Caches(c *Ctx, a *c17Anchors) *c17CacheInfo {
 					continue
 				}
 				f, ok := c17RIField(a, ld.X)
-				if !ok || !isCache[f] || ld.Referrers() == nil {
+				if !ok || !isCache[f] {
 					continue
 				}
-				for _, r := range *ld.Referrers() {
-					ac := c17Access{Instr: r, Field: f, Kind: "other", Write: true}
-					switch u := r.(type) {
-					case *ssa.Lookup:
-						ac.Kind, ac.Write, ac.Key = "lookup", false, u.Index
-					case *ssa.MapUpdate:
-						ac.Kind, ac.Key, ac.Val = "update", u.Key, u.Value
-					case *ssa.Range:
-						ac.Kind, ac.Write = "range", false
-					case *ssa.DebugRef:
-						continue
-					case ssa.CallInstruction:
-						switch calleeKey(u.Common()) {
-						case "builtin.delete":
-							ac.Kind = "delete"
-							if len(u.Common().Args) == 2 {
-								ac.Key = u.Common().Args[1]
-							}
-						case "builtin.len":
-							ac.Kind, ac.Write = "len", false
-						case "builtin.clear":
-							ac.Kind = "delete"
-						}
-					}
-					ci.acc[fn] = append(ci.acc[fn], ac)
-				}
+				uses(ld, f, fn, 0)
 			}
 		}
+	}
+	for _, fn := range c.W.ModFuncs {
 		if len(ci.acc[fn]) > 0 {
 			ci.funcs = append(ci.funcs, fn)
 		}
@@ -1730,9 +1765,10 @@ func c17Caches(c *Ctx, a *c17Anchors) *c17CacheInfo {
 			return -1
 		}
 		found := -1
-		for f := range c.W.reachableFuncs([]*ssa.Function{fn}, 2) {
+		reach := c.W.reachableFuncs([]*ssa.Function{fn}, 2)
+		for f := range reach {
 			for _, ac := range ci.acc[f] {
-				if ac.Kind == "lookup" {
+				if _, ok := reach[ac.Origin]; ac.Kind == "lookup" && ok {
 					if found >= 0 && found != ac.Field {
 						return -1
 					}
@@ -1848,6 +1884,16 @@ func c17HasRoot(rs RootSet, pred func(string) bool) bool {
 		}
 	}
 	return false
+}
+
+func c17FreshNames(rs RootSet) string {
+	var out []string
+	for _, k := range rs.list() {
+		if c17FreshRoot(k) {
+			out = append(out, strings.ReplaceAll(k[strings.Index(k, ":")+1:], modulePath+"/", "")+"()")
+		}
+	}
+	return strings.Join(out, ", ")
 }
 
 func c17FreshRoot(k string) bool {
@@ -2229,12 +2275,16 @@ func c17RunD3Cache(c *Ctx, a *c17Anchors) {
 			case ac.Key == nil:
 				c.fail("D3", construct, posOf(ac.Instr), "the clean-up clears the whole rotation cache")
 			default:
+				// the replaced point may reach the clean-up through parameters of unexported helpers:
+				// follow them to the call sites
+				// (only for the fresh-point test: the encoding signature is taken locally)
 				rs := rootsOf(provCfg{W: w, InlineResults: true}, ac.Key)
-				fresh := c17HasRoot(rs, c17FreshRoot)
+				rsUp := rootsOf(provCfg{W: w, InlineResults: true, FollowCallers: true, MaxDepth: 4}, ac.Key)
+				fresh := c17HasRoot(rs, c17FreshRoot) || c17HasRoot(rsUp, c17FreshRoot)
 				stale := c17HasRoot(rs, func(k string) bool { return strings.HasPrefix(k, "param:") && strings.HasSuffix(k, "."+a.fRot) })
 				switch {
 				case fresh:
-					c.fail("D3", construct, posOf(ac.Instr), "the clean-up deletes the rotation entry of the point built by the rotation (key <- {%s}): after the delay the current rotation value is refused", c17Brief(rs))
+					c.fail("D3", construct, posOf(ac.Instr), "the clean-up deletes the rotation entry of the point built by the rotation (key <- {%s}): after the delay the current rotation value is refused", c17Brief(rs)+"; through callers: "+c17FreshNames(rsUp))
 				case !stale:
 					c.fail("D3", construct, posOf(ac.Instr), "the clean-up key does not derive from the rotation value of the replaced point (key <- {%s})", c17Brief(rs))
 				case refSig != "" && c17EncSig(rs) != refSig:
@@ -2251,10 +2301,23 @@ func c17RunD3Cache(c *Ctx, a *c17Anchors) {
 		return
 	}
 	lk := &c17Locks{a: a, ci: ci, w: w, local: map[*ssa.Function]map[ssa.Instruction]int{}, entry: map[*ssa.Function]int{}, busy: map[*ssa.Function]bool{}}
+	// one obligation per function that takes a cache map out of the RotationInterval (the
+	// accesses themselves may sit in helpers that receive the map)
+	byOrigin := map[*ssa.Function][]c17Access{}
+	var origins []*ssa.Function
 	for _, fn := range ci.funcs {
+		for _, ac := range ci.acc[fn] {
+			if _, ok := byOrigin[ac.Origin]; !ok {
+				origins = append(origins, ac.Origin)
+			}
+			byOrigin[ac.Origin] = append(byOrigin[ac.Origin], ac)
+		}
+	}
+	sort.Slice(origins, func(i, j int) bool { return origins[i].String() < origins[j].String() })
+	for _, fn := range origins {
 		bad := ""
 		n := 0
-		for _, ac := range ci.acc[fn] {
+		for _, ac := range byOrigin[fn] {
 			n++
 			held := lk.heldAt(ac.Instr)
 			need := 1
@@ -2327,6 +2390,60 @@ func c17IsPointOf(v ssa.Value, call *ssa.Call) bool {
 		return len(phi.Edges) > 0
 	}
 	return false
+}
+
+// c17Chains: the call sites leading from root to host (host first), depth <= 2; nil when host
+// is root.
+func c17Chains(w *World, root, host *ssa.Function) [][]callSite {
+	if root == host {
+		return nil
+	}
+	var out [][]callSite
+	cg := w.callGraph()
+	for _, cs := range cg.callers[host] {
+		if cs.Caller == root {
+			out = append(out, []callSite{cs})
+			continue
+		}
+		for _, cs2 := range cg.callers[cs.Caller] {
+			if cs2.Caller == root {
+				out = append(out, []callSite{cs, cs2})
+			}
+		}
+	}
+	return out
+}
+
+// c17ParamIsRootBytes: parameter par of host is, on every chain, handed down unchanged from a
+// []byte parameter of the root function (the received payload).
+func c17ParamIsRootBytes(host *ssa.Function, par *ssa.Parameter, chains [][]callSite) bool {
+	if len(chains) == 0 {
+		return c17IsByteSlice(par.Type())
+	}
+	for _, ch := range chains {
+		cur, fn := par, host
+		for _, cs := range ch {
+			idx := -1
+			for i, p := range fn.Params {
+				if p == cur {
+					idx = i
+				}
+			}
+			args := cs.Instr.Common().Args
+			if idx < 0 || idx >= len(args) {
+				return false
+			}
+			up, ok := stripConv(args[idx]).(*ssa.Parameter)
+			if !ok {
+				return false
+			}
+			cur, fn = up, cs.Caller
+		}
+		if !c17IsByteSlice(cur.Type()) {
+			return false
+		}
+	}
+	return true
 }
 
 func c17RunD4(c *Ctx, a *c17Anchors) {
@@ -2415,91 +2532,129 @@ func c17RunD4(c *Ctx, a *c17Anchors) {
 	// ---------------- Unmarshal
 	c.analysed(unmarshal)
 	un := fnName(unmarshal)
-	ucalls := a.lookupCalls(unmarshal)
-	if len(ucalls) == 0 {
-		c.undecided("D4", un+"+lookup", unmarshal.Pos(), "Unmarshal does not resolve the received rotation value through an exported lookup of RotationInterval in its own body")
+	// the lookup may sit in Unmarshal itself or in a module function it calls (depth <= 2)
+	hosts := []*ssa.Function{unmarshal}
+	if len(a.lookupCalls(unmarshal)) == 0 {
+		hosts = nil
+		for f, d := range w.reachableFuncs([]*ssa.Function{unmarshal}, 2) {
+			if p := fnPkg(f); d > 0 && p != nil && p.Path() == pkgRoot && len(a.lookupCalls(f)) > 0 {
+				hosts = append(hosts, f)
+			}
+		}
+		sort.Slice(hosts, func(x, y int) bool { return hosts[x].String() < hosts[y].String() })
 	}
-	for _, call := range ucalls {
-		callee := staticCallee(call.Common())
-		args := call.Common().Args
-		var headAlloc ssa.Value
-		if len(args) == 2 {
-			okSrc, msg := false, "the value looked up is not read from the decoded message"
-			if lp, ok := accessPathLocal(args[1]); ok && lp.Path == ".RawRotation" {
-				if pt, isP := lp.Base.Type().Underlying().(*types.Pointer); isP && types.Identical(pt.Elem(), headsT) {
-					// decoded from the payload parameter?
-					for _, u := range callsIn(unmarshal, keyIs(c17KeyProtoUnmarshal)) {
-						ua := u.Common().Args
-						if len(ua) == 2 && stripConv(ua[1]) == lp.Base {
-							if _, isPar := ua[0].(*ssa.Parameter); isPar && instrDominates(u, call) {
-								okSrc = true
-								headAlloc = lp.Base
+	if len(hosts) == 0 {
+		c.undecided("D4", un+"+lookup", unmarshal.Pos(), "Unmarshal does not resolve the received rotation value through an exported lookup of RotationInterval, neither in its own body nor in a module function it calls (depth 2)")
+	}
+	for _, host := range hosts {
+		c.analysed(host)
+		chains := c17Chains(w, unmarshal, host)
+		where := ""
+		if host != unmarshal {
+			where = " (in " + fnName(host) + ")"
+			if len(chains) == 0 {
+				c.undecided("D4", un+"+lookup", host.Pos(), "cannot trace the calls from Unmarshal to %s", fnName(host))
+				continue
+			}
+		}
+		for _, call := range a.lookupCalls(host) {
+			callee := staticCallee(call.Common())
+			args := call.Common().Args
+			var headAlloc ssa.Value
+			if len(args) == 2 {
+				okSrc, msg := false, "the value looked up is not read from the decoded message"
+				if lp, ok := accessPathLocal(args[1]); ok && lp.Path == ".RawRotation" {
+					if pt, isP := lp.Base.Type().Underlying().(*types.Pointer); isP && types.Identical(pt.Elem(), headsT) {
+						// decoded from the payload parameter?
+						for _, u := range callsIn(host, keyIs(c17KeyProtoUnmarshal)) {
+							ua := u.Common().Args
+							if len(ua) == 2 && stripConv(ua[1]) == lp.Base {
+								if par, isPar := ua[0].(*ssa.Parameter); isPar && instrDominates(u, call) && c17ParamIsRootBytes(host, par, chains) {
+									okSrc = true
+									headAlloc = lp.Base
+								}
 							}
 						}
-					}
-					if !okSrc {
-						msg = "the message whose RawRotation is looked up is not decoded from the received payload before the lookup"
-					}
-				}
-			} else if ok {
-				msg = "the lookup uses field " + lp.Path + " of the decoded message instead of RawRotation"
-			}
-			c.check(okSrc, "D4", un+"+lookup.rotation", posOf(call), "the rotation value looked up is the RawRotation of the message decoded from the payload", msg)
-		}
-		okg, why := c17Guard(c, unmarshal, call)
-		c.check(okg, "D4", un+"+lookup.err", posOf(call), "an unknown rotation value makes Unmarshal fail on every path", "error of "+callee.Name()+" not enforced, a rotation value of an unknown topic or another seed is accepted: "+why)
-		// the box is opened under the resolved point's topic
-		found := false
-		for _, b := range unmarshal.Blocks {
-			for _, in := range b.Instrs {
-				oc, ok := in.(*ssa.Call)
-				if !ok || oc == call {
-					continue
-				}
-				takesBox := false
-				for _, ar := range oc.Common().Args {
-					if lp, ok := accessPathLocal(ar); ok && lp.Path == ".SealedBox" && (headAlloc == nil || lp.Base == headAlloc) {
-						takesBox = true
-					}
-				}
-				if !takesBox {
-					continue
-				}
-				nStr, nGood := 0, 0
-				bad := ""
-				for _, ar := range oc.Common().Args {
-					if !c17IsString(ar.Type()) {
-						continue
-					}
-					if _, isConst := ar.(*ssa.Const); isConst {
-						continue
-					}
-					nStr++
-					if tc, isCall := stripConv(ar).(*ssa.Call); isCall && staticCallee(tc.Common()) == a.topicAcc && len(tc.Common().Args) == 1 && c17IsPointOf(tc.Common().Args[0], call) {
-						nGood++
-						continue
-					}
-					// other strings are tolerated when they come from the marshaler itself
-					pr := paramRoots(rootsOf(cfg, ar), unmarshal)
-					foreign := len(pr) == 0
-					for _, r := range pr {
-						if !strings.HasPrefix(r, "p0") {
-							foreign = true
+						if !okSrc {
+							msg = "the message whose RawRotation is looked up is not decoded from the received payload before the lookup"
 						}
 					}
-					if foreign {
-						bad = fmt.Sprintf("%v", pr)
+				} else if ok {
+					msg = "the lookup uses field " + lp.Path + " of the decoded message instead of RawRotation"
+				}
+				c.check(okSrc, "D4", un+"+lookup.rotation", posOf(call), "the rotation value looked up is the RawRotation of the message decoded from the payload"+where, msg+where)
+			}
+			okg, why := c17Guard(c, host, call)
+			// the failure must travel up to Unmarshal's own result
+			for _, ch := range chains {
+				for _, cs := range ch {
+					if !okg {
+						break
+					}
+					site, isCall := cs.Instr.(*ssa.Call)
+					if !isCall {
+						okg, why = false, "the function resolving the rotation value is started with go/defer: its error cannot reach Unmarshal"
+						break
+					}
+					if g, gw := c17Guard(c, cs.Caller, site); !g {
+						okg, why = false, "the error returned by "+fnName(staticCallee(site.Common()))+" is not enforced in "+fnName(cs.Caller)+": "+gw
 					}
 				}
-				if nStr == 0 {
-					continue
-				}
-				found = true
-				c.check(nGood >= 1 && bad == "", "D4", un+"+open.topic", posOf(oc), "the sealed box is opened with the key registered for the resolved point's topic", "the sealed box is opened under a topic that is not the resolved point's ("+bad+"): the rotation value is not mapped back to its topic")
 			}
-		}
-		if !found {
-			c.undecided("D4", un+"+open.topic", posOf(call), "no call in Unmarshal takes the decoded SealedBox together with a topic: the way the box key is selected is not modelled")
+			c.check(okg, "D4", un+"+lookup.err", posOf(call), "an unknown rotation value makes Unmarshal fail on every path", "error of "+callee.Name()+" not enforced, a rotation value of an unknown topic or another seed is accepted: "+why)
+			// the box is opened under the resolved point's topic
+			found := false
+			for _, b := range host.Blocks {
+				for _, in := range b.Instrs {
+					oc, ok := in.(*ssa.Call)
+					if !ok || oc == call {
+						continue
+					}
+					takesBox := false
+					for _, ar := range oc.Common().Args {
+						if lp, ok := accessPathLocal(ar); ok && lp.Path == ".SealedBox" && (headAlloc == nil || lp.Base == headAlloc) {
+							takesBox = true
+						}
+					}
+					if !takesBox {
+						continue
+					}
+					nStr, nGood := 0, 0
+					bad := ""
+					for _, ar := range oc.Common().Args {
+						if !c17IsString(ar.Type()) {
+							continue
+						}
+						if _, isConst := ar.(*ssa.Const); isConst {
+							continue
+						}
+						nStr++
+						if tc, isCall := stripConv(ar).(*ssa.Call); isCall && staticCallee(tc.Common()) == a.topicAcc && len(tc.Common().Args) == 1 && c17IsPointOf(tc.Common().Args[0], call) {
+							nGood++
+							continue
+						}
+						// other strings are tolerated when they come from the marshaler itself
+						pr := paramRoots(rootsOf(cfg, ar), host)
+						foreign := len(pr) == 0
+						for _, r := range pr {
+							if !strings.HasPrefix(r, "p0") {
+								foreign = true
+							}
+						}
+						if foreign {
+							bad = fmt.Sprintf("%v", pr)
+						}
+					}
+					if nStr == 0 {
+						continue
+					}
+					found = true
+					c.check(nGood >= 1 && bad == "", "D4", un+"+open.topic", posOf(oc), "the sealed box is opened with the key registered for the resolved point's topic", "the sealed box is opened under a topic that is not the resolved point's ("+bad+"): the rotation value is not mapped back to its topic")
+				}
+			}
+			if !found {
+				c.undecided("D4", un+"+open.topic", posOf(call), "no call in Unmarshal takes the decoded SealedBox together with a topic: the way the box key is selected is not modelled")
+			}
 		}
 	}
 	// ---------------- registration: rotation, shared key and group under one topic
@@ -2806,9 +2961,10 @@ func c17RunD6(c *Ctx, a *c17Anchors) {
 	}
 	byRotation := map[*ssa.Function]bool{}
 	for _, l := range a.lookups {
-		for f := range w.reachableFuncs([]*ssa.Function{l}, 2) {
+		reach := w.reachableFuncs([]*ssa.Function{l}, 2)
+		for f := range reach {
 			for _, ac := range ci.acc[f] {
-				if ac.Kind == "lookup" && ac.Field == ci.rotF {
+				if _, ok := reach[ac.Origin]; ok && ac.Kind == "lookup" && ac.Field == ci.rotF {
 					byRotation[l] = true
 				}
 			}
